@@ -1,6 +1,7 @@
 import ICS.Driver.Common
 import ICS.Driver.ValSet
 import ICS.Spec.Cons
+import ICS.Model.Rewards
 namespace ICS.Driver
 open ICS ICS.Consumer ICS.ValSet
 
@@ -10,6 +11,7 @@ structure ConsDrv where
   retry  : Int := 0
   engine : List Val := []
   recv   : List (Nat × Nat) := []
+  rparams : Line := { kind := "", name := "", kv := [] }     -- reward parameters of the last cinit
 
 def cget (f : List (String × String)) (k : String) : String :=
   match f.find? (·.1 == k) with
@@ -54,6 +56,29 @@ def consStateOf (d : ConsDrv) : State :=
     queue := parseQueue (cget f "queue"), record := rec_, retryDelay := d.retry,
     height := nat0 (cget f "h"), now := int0 (cget f "now"), chanOpen := cget f "chanopen" != "0" }
 
+def cparseBal (s : String) : Rewards.Bal :=
+  (if s == "" then [] else s.splitOn ",").filterMap fun t => match t.splitOn ":" with | [a, b] => some (a, nat0 b) | _ => none
+
+def crenderBal (b : Rewards.Bal) : String :=
+  ",".intercalate ((isort (fun (a b : String × Nat) => decide (a.1 ≤ b.1)) (b.filter (·.2 != 0))).map fun e => s!"{e.1}:{e.2}")
+
+def crOf (f : List (String × String)) : Rewards.CRState :=
+  { fc := cparseBal (cget f "fc"), redis := cparseBal (cget f "redis"), toSend := cparseBal (cget f "tosend"),
+    escrow := cparseBal (cget f "escrow"), ltbh := nat0 (cget f "ltbh") }
+
+def cmpCR (a : Acc) (lineNo : Nat) (m : Rewards.CRState) (impl : List (String × String)) : Acc :=
+  let a := a.cmp lineNo "cons.fc" (crenderBal m.fc) (cget impl "fc")
+  let a := a.cmp lineNo "cons.redis" (crenderBal m.redis) (cget impl "redis")
+  let a := a.cmp lineNo "cons.tosend" (crenderBal m.toSend) (cget impl "tosend")
+  let a := a.cmp lineNo "cons.escrow" (crenderBal m.escrow) (cget impl "escrow")
+  a.cmp lineNo "cons.ltbh" (toString m.ltbh) (cget impl "ltbh")
+
+def parseDec18 (s : String) : Nat :=
+  match s.splitOn "." with
+  | [a, b] => nat0 a * 10^18 + nat0 (b ++ String.ofList (List.replicate (18 - b.length) '0'))
+  | [a] => nat0 a * 10^18
+  | _ => 0
+
 def renderCons (s : State) : List (String × String) :=
   [("cc", fmtPairs (ofVals (canonVals s.cc))),
    ("pendch", match s.pending with | none => "-" | some [] => "empty" | some l => fmtPairs (ofVals l)),
@@ -78,7 +103,7 @@ def stepCons (d : ConsDrv) (a : Acc) (s : Step) : ConsDrv × Acc :=
     let f0 := cs.foldl (fun f l => csetAll f l.kv) []
     let a := a.cmp s.lineNo "cons.cinit.cc" (fmtPairs (ofVals (canonVals r.1))) (cget f0 "cc")
     let a := a.cmp s.lineNo "cons.cinit.ret" (fmtPairs (ofVals ini)) ((s.ob "r").get "ret")
-    ({ d with f := f0, retry := s.op.int "retry", engine := r.1, recv := [] }, a)
+    ({ d with f := f0, retry := s.op.int "retry", engine := r.1, recv := [], rparams := s.op }, a)
   | "cbegin" =>
     let st := consStateOf d
     let st := { st with height := st.height + s.op.nat "dh", now := st.now + s.op.int "dt" }
@@ -129,6 +154,36 @@ def stepCons (d : ConsDrv) (a : Acc) (s : Step) : ConsDrv × Acc :=
     let a := a.cmp s.lineNo "cons.cend.sent" (renderQueue r.2.1) (renderQueue implSent)
     let a := a.cmp s.lineNo "cons.cend.ret" (fmtPairs (ofVals r.2.2)) (o.get "ret")
     let a := cmpCons a s.lineNo r.1 after
+    -- reward distribution (EndBlockRD runs first in EndBlock)
+    let a := if d.rparams.has "frac" then
+        let cr := crOf d.f
+        let allowed := (d.rparams.get "denoms").splitOn "+" |>.filter (· != "")
+        let frac := parseDec18 (d.rparams.get "frac")
+        let m := Rewards.endBlockRD cr st.height frac (d.rparams.nat "bpdt") allowed (cget d.f "tchopen" == "1") (s.op.nat "tfail")
+        let a := cmpCR a s.lineNo m.1 after
+        let effT := ((if o.get "effects" == "" then [] else (o.get "effects").splitOn "|").filter (·.startsWith "transfer_"))
+        let implT := effT.map fun t => ((t.splitOn "_").getD 1 "") ++ "/" ++ ((t.splitOn "_").getD 2 "")
+        let a := a.cmp s.lineNo "cons.transfers" (",".intercalate (m.2.map fun e => s!"{e.2}{e.1}/ch={d.rparams.get "tch"}")) (",".intercalate implT)
+        let a := if !m.2.isEmpty then { (a.tag "rewards-sent") with nontrivial := a.nontrivial + 1 } else a
+        let a := if !cr.fc.isEmpty then a.tag "fees-split" else a
+        let a := if s.op.nat "tfail" != 0 && m.2.isEmpty && cget d.f "tchopen" == "1" && decide (st.height ≥ cr.ltbh + d.rparams.nat "bpdt")
+                    && !(Rewards.sendRewards (Rewards.distributeInternally cr frac) allowed true 0).2.isEmpty
+                 then a.tag "rewards-send-rolled-back" else a
+        -- C16 clauses on the implementation's own balances
+        let cr' := crOf after
+        let denoms := ["stake", "photon", "mote"]
+        let tot := fun (x : Rewards.CRState) (dn : String) => Rewards.getBal x.fc dn + Rewards.getBal x.redis dn + Rewards.getBal x.toSend dn + Rewards.getBal x.escrow dn
+        let a := a.spec s.lineNo "C16.cons-conserved" (denoms.all fun dn => tot cr dn == tot cr' dn) s!"before={repr cr} after={repr cr'}"
+        let a := a.spec s.lineNo "C16.cons-split-exact" (denoms.all fun dn =>
+          Rewards.getBal cr'.redis dn == Rewards.getBal cr.redis dn + Rewards.consumerShare (Rewards.getBal cr.fc dn) frac && Rewards.getBal cr'.fc dn == 0)
+          s!"before={repr cr} after={repr cr'}"
+        let a := a.spec s.lineNo "C16.cons-allowed-denoms-only" (denoms.all fun dn =>
+          allowed.contains dn || Rewards.getBal cr'.escrow dn == Rewards.getBal cr.escrow dn) s!"allowed={allowed}"
+        let a := a.spec s.lineNo "C16.cons-send-only-when-open-and-due" (denoms.all fun dn =>
+          Rewards.getBal cr'.escrow dn == Rewards.getBal cr.escrow dn || (cget d.f "tchopen" == "1" && decide (st.height ≥ cr.ltbh + d.rparams.nat "bpdt")))
+        let a := a.spec s.lineNo "C16.cons-memo-names-consumer" (effT.all fun t => (t.splitOn "\"consumerId\":\"7\"").length == 2)
+        a
+      else a
     let d' := { d with f := after }
     let t := consStateOf d'
     let a := if !implSent.isEmpty || st.pending.isSome then { a with nontrivial := a.nontrivial + 1 } else a
@@ -138,6 +193,18 @@ def stepCons (d : ConsDrv) (a : Acc) (s : Step) : ConsDrv × Acc :=
     let engine := (applyCC d.engine implRet).1
     let a := a.spec s.lineNo "C01.engine-equals-store" (fmtPairs (ofVals (canonVals engine)) == fmtPairs (ofVals (canonVals t.cc)))
     ({ d' with engine := engine }, a)
+  | "cfees" =>
+    let cr := crOf d.f
+    let m := { cr with fc := Rewards.addBal cr.fc (s.op.get "denom") (s.op.nat "amt") }
+    ({ d with f := after }, cmpCR a s.lineNo m after)
+  | "crefund" =>
+    let cr := crOf d.f
+    let dn := s.op.get "denom"
+    let amt := s.op.nat "amt"
+    let m := if res == "ok" then { cr with escrow := Rewards.setBal cr.escrow dn (Rewards.getBal cr.escrow dn - amt), toSend := Rewards.addBal cr.toSend dn amt } else cr
+    ({ d with f := after }, cmpCR (a.tag "refund") s.lineNo m after)
+  | "ctch" =>
+    ({ d with f := after }, cmpCR a s.lineNo (crOf d.f) after)
   | "cack" =>
     let st := consStateOf d
     let isSlash := (s.ob "r").get "pkt" == "slash"
